@@ -432,6 +432,14 @@ SelS(p, goal, S) ==
 Alternatives(goal) ==
   IF IsStmtPat /\ Ambiguous THEN {Block(SelB(<<>>, goal, S)) : S \in MaximalSelections} ELSE {}
 
+\* Histories.  What a restructuring computes depends on the module's current text only: the
+\* expected result is Rewrite(goal) whatever the same Restructure object computed before.  Earlier
+\* gives module texts the object may have been asked about first (the current module before an
+\* edit: a statement was removed from / added at the front, so every offset moved); the binding
+\* computes on an earlier text, rewrites the file to the current module, and computes again.
+Earlier ==
+  {Block(<<ExprS(Name("z"))>> \o mod.c)} \cup (IF Len(mod.c) > 1 THEN {Block(Tail(mod.c))} ELSE {})
+
 ----------------------------------------------------------------------------
 \* Goals built from the pattern's wildcards
 WSeq == LET ws == WildNames(pat)
